@@ -41,10 +41,50 @@ import (
 
 var rec *evid.Rec
 
-// U is the exhaustive universe (63 values: every type, empty/singleton/nested
+// U is the exhaustive universe (gen.U60, 63 values, plus 6 at the edge of the
+// double range: every type, empty/singleton/nested
 // containers, negative/fractional/huge numbers, NaN/inf, multi-byte and
 // invalid UTF-8 strings).
-var U = gen.U60(true, true)
+var U = buildU()
+
+// boundaryInts are the integers at the magnitude boundaries of the number
+// representations: 2^53 (exact doubles), 2^63/2^64 (machine integers),
+// 10^22/10^23 (exactly / not exactly representable powers of ten), and the
+// edge of the double range (2^1023, 10^308, MaxFloat64 as an integer, 2^1024,
+// 10^309: the last ones must saturate like 1e1000).
+func boundaryInts() []*big.Int {
+	pow := func(b, e int64) *big.Int { return new(big.Int).Exp(big.NewInt(b), big.NewInt(e), nil) }
+	add := func(x *big.Int, d int64) *big.Int { return new(big.Int).Add(x, big.NewInt(d)) }
+	maxF := new(big.Int).Sub(pow(2, 1024), pow(2, 971))
+	pos := []*big.Int{pow(2, 53), add(pow(2, 53), 1), pow(2, 63), pow(2, 64), pow(10, 22), pow(10, 23), add(pow(2, 1023), -1), pow(2, 1023), add(pow(2, 1023), 1),
+		pow(10, 308), maxF, add(maxF, 1), add(pow(2, 1024), -1), pow(2, 1024), pow(10, 309), pow(2, 1000)}
+	out := make([]*big.Int, 0, 2*len(pos))
+	for _, x := range pos {
+		out = append(out, x, new(big.Int).Neg(x))
+	}
+	return out
+}
+
+// boundaryPool: every boundary integer as *big.Int and as integer-literal
+// json.Number (and as int where it fits).
+func boundaryPool() []any {
+	var out []any
+	for _, b := range boundaryInts() {
+		out = append(out, new(big.Int).Set(b), json.Number(b.String()))
+		if b.IsInt64() {
+			out = append(out, int(b.Int64()))
+		}
+	}
+	return out
+}
+
+// buildU: gen.U60 plus a few integers at the edge of the double range.
+func buildU() []any {
+	u := gen.U60(true, true)
+	pow := func(b, e int64) *big.Int { return new(big.Int).Exp(big.NewInt(b), big.NewInt(e), nil) }
+	maxF := new(big.Int).Sub(pow(2, 1024), pow(2, 971))
+	return append(u, pow(2, 1023), json.Number(pow(10, 308).String()), new(big.Int).Neg(maxF), pow(2, 1024), json.Number(pow(10, 309).String()), math.MaxFloat64)
+}
 
 // ---------------------------------------------------------------------------
 // call specs
@@ -499,7 +539,7 @@ func TestC03(t *testing.T) {
 // universeIntact: the shared universe values are passed to gojq by reference;
 // a builtin writing into its input would corrupt every later case.
 func universeIntact(t *testing.T, after string) {
-	fresh := gen.U60(true, true)
+	fresh := buildU()
 	for i := range U {
 		if !univ.Same(U[i], fresh[i]) {
 			rec.Direct("total", map[string]any{"note": "universe value modified", "index": i}, "after the %s sweeps universe value #%d is %s, it was %s: a builtin wrote into its input", after, i, univ.Show(U[i]), univ.Show(fresh[i]))
